@@ -2,7 +2,7 @@ package locks
 
 import (
 	"fmt"
-	"strings"
+	"strconv"
 
 	"verif/mc"
 
@@ -17,8 +17,9 @@ type lsState[O comparable] struct {
 	impl   virtual.ByteRangeLockSet[O]
 	owners []O
 	m      *model
-	// entries of the table after the previous operation.
-	cur []entry
+	// entries of the table after the previous operation (cached dump).
+	cur      []entry
+	curValid bool
 }
 
 func (s *lsState[O]) dump() ([]entry, bool) {
@@ -26,14 +27,34 @@ func (s *lsState[O]) dump() ([]entry, bool) {
 	return convertDump(d, s.owners), ok
 }
 
-func lsKey[O comparable](s *lsState[O]) string {
-	var sb strings.Builder
-	for _, e := range s.cur {
-		fmt.Fprintf(&sb, "%d:%d:%x:%x;", e.owner, int(e.typ), e.start, e.end)
+// entries returns the table as it was after the last Set.
+func (s *lsState[O]) entries() []entry {
+	if !s.curValid {
+		s.cur, _ = s.dump()
+		s.curValid = true
 	}
-	sb.WriteByte('|')
-	sb.WriteString(s.m.String())
-	return sb.String()
+	return s.cur
+}
+
+func appendEntries(b []byte, es []entry) []byte {
+	for _, e := range es {
+		b = strconv.AppendInt(b, int64(e.owner), 10)
+		b = append(b, ':')
+		b = strconv.AppendInt(b, int64(e.typ), 10)
+		b = append(b, ':')
+		b = strconv.AppendUint(b, e.start, 16)
+		b = append(b, ':')
+		b = strconv.AppendUint(b, e.end, 16)
+		b = append(b, ';')
+	}
+	return b
+}
+
+func lsKey[O comparable](s *lsState[O]) string {
+	b := appendEntries(make([]byte, 0, 256), s.entries())
+	b = append(b, '|')
+	b = s.m.appendKey(b)
+	return string(b)
 }
 
 func locksetSeq[O comparable](name string, owners []O, points []uint64, depth map[string]int) *mc.Seq {
@@ -72,8 +93,19 @@ func locksetSeq[O comparable](name string, owners []O, points []uint64, depth ma
 					Name: fmt.Sprintf("%c %s [%s,%s)", 'A'+o, kind, offName(start), offName(end)),
 					Do: func(c *mc.SeqCtx, x any) {
 						s := x.(*lsState[O])
-						before := s.cur
 						req := virtual.ByteRangeLock[O]{Start: start, End: end, Owner: owners[o], Type: t}
+						if c.Replaying {
+							// Prefix that was already checked when it was explored:
+							// same calls, no oracles.
+							if t != tNone && s.impl.Test(&req) != nil {
+								return
+							}
+							s.impl.Set(&req)
+							s.m.set(o, r.i, r.j, t)
+							s.curValid = false
+							return
+						}
+						before := s.entries()
 						if t != tNone {
 							// LOCK: Test first.
 							want := s.m.conflict(o, r.i, r.j, t)
@@ -109,8 +141,10 @@ func locksetSeq[O comparable](name string, owners []O, points []uint64, depth ma
 						}
 						s.m.set(o, r.i, r.j, t)
 						after, _ := s.dump()
-						s.cur = after
-						c.Logf("    delta=%d table=%s model=%s", delta, entriesString(after), s.m)
+						s.cur, s.curValid = after, true
+						if c.Verbose() {
+							c.Logf("    delta=%d table=%s model=%s", delta, entriesString(after), s.m)
+						}
 						if delta != len(after)-len(before) {
 							c.FailP("C20", "lockset/delta/"+kind, "Set returned delta %d, number of entries went from %d to %d: %s -> %s", delta, len(before), len(after), entriesString(before), entriesString(after))
 						}
